@@ -194,10 +194,12 @@ func (s *Service) SetRolloutSplit(percentage int, allowlist []string) error {
 	defer s.serviceLock.Unlock()
 
 	if s.rollout == nil {
+		verifEmit("rollout_split_refused", s)
 		return ErrorRolloutTargetNotSet
 	}
 
 	s.rolloutController = NewRolloutController(percentage, allowlist)
+	verifEmit("rollout_split", s, true)
 	slog.Info("Set rollout split", "service", s.name, "percentage", percentage, "allowlist", allowlist)
 	return nil
 }
@@ -207,6 +209,7 @@ func (s *Service) StopRollout() error {
 	defer s.serviceLock.Unlock()
 
 	s.rolloutController = nil
+	verifEmit("rollout_split", s, false)
 	slog.Info("Stopped rollout", "service", s.name)
 	return nil
 }
